@@ -85,6 +85,12 @@ def render_doc(shape, keys, slots):
         if len(r) > 1:
             lines.append("- %s" % r[-1])
         return "\n".join(lines) + "\n"
+    if shape == "mapnest":      # aliases inside a list of lists
+        lines = ["%s: %s" % (keys[0], r[0]), "%s: [[%s], 7]" % (keys[1], ", ".join(r[1:]))]
+        return "\n".join(lines) + "\n"
+    if shape == "seqnest":
+        lines = ["- %s" % r[0], "- [[%s], 7]" % ", ".join(r[1:])]
+        return "\n".join(lines) + "\n"
     if shape == "scalar":
         return r[0] + "\n"
     raise ValueError(shape)
@@ -205,6 +211,10 @@ def run_case(case, log, drv_reqs, drv_ctx):
     from yamlpath.common import Parsers
     ltxt, rtxt, mode, arrays = case["l"], case["r"], case["mode"], case.get("arrays", "all")
     rec = {"case": case, "viol": [], "skip": False}
+    chain = case.get("r0")      # an earlier right-hand document merged first by the same Merger
+    mergeat = case.get("mergeat")
+    if chain is not None:
+        return run_chain(case, log, rec)
     # ---- (1) resolution step alone
     lhs, rhs = load(ltxt, log), load(rtxt, log)
     ids = {}
@@ -230,6 +240,36 @@ def run_case(case, log, drv_reqs, drv_ctx):
     drv_ctx.append(rec)
     # ---- (2) the property on the whole merge
     lhs, rhs = load(ltxt, log), load(rtxt, log)
+    merger = Merger(log, lhs, MergerConfig(log, SimpleNamespace(anchors=mode, arrays=arrays)))
+    return judge_merge(merger, rhs, rtxt, mode, rec)
+
+
+def run_chain(case, log, rec):
+    """One Merger merges r0 and then r at a non-root path: the clauses are judged for the second
+    merge against the document as it stands after the first."""
+    from yamlpath.merger import Merger, MergerConfig
+    from yamlpath.merger.exceptions import MergeException
+    lhs, r0, rhs = load(case["l"], log), load(case["r0"], log), load(case["r"], log)
+    merger = Merger(log, lhs, MergerConfig(log, SimpleNamespace(
+        anchors=case["mode"], arrays=case.get("arrays", "all"), mergeat=case["mergeat"])))
+    try:
+        merger.merge_with(r0)
+    except MergeException:
+        rec["skip"] = True
+        return rec
+    except Exception as e:  # noqa
+        rec["viol"].append(("merge-" + core.exc_class(e) + "@" + core.crash_site(e),
+                            "first merge_with raised %s" % type(e).__name__))
+        return rec
+    return judge_merge(merger, rhs, case["r"], case["mode"], rec)
+
+
+def judge_merge(merger, rhs, rtxt, mode, rec):
+    """The property's clauses for merging `rhs` into merger.data (as it stands now)."""
+    from yamlpath.merger.exceptions import MergeException
+    from yamlpath.common import Parsers
+    log = merger.logger
+    lhs = merger.data
     lanch, ranch = {}, {}
     for n, node, _i in anchored_nodes(lhs):
         lanch[n] = node
@@ -244,7 +284,6 @@ def run_case(case, log, drv_reqs, drv_ctx):
     rvals = {n: vj(ranch[n]) for n in common}
     r_ids = {n: {i for (m, _nd, i) in rocc if m == n} for n in conflicts}
     all_names = set(lanch) | set(ranch)
-    merger = Merger(log, lhs, MergerConfig(log, SimpleNamespace(anchors=mode, arrays=arrays)))
     try:
         merger.merge_with(rhs)
         merged_ok = True
@@ -341,7 +380,7 @@ def worker(cases):
         if rec.get("skip"):
             out["skip"] += 1
             continue
-        key = "%s|%s|%s" % (c["l"], c["r"], c["mode"])
+        key = "%s|%s|%s|%s" % (c["l"], c.get("r0"), c["r"], c["mode"])
         if rec.get("common"):
             out["nontrivial"].add(hash(key))
         h = "mode=%s conflicts=%s" % (c["mode"], min(rec.get("conflicts", 0), 2))
@@ -384,10 +423,14 @@ def gen_cases(chk):
     lkeys, rkeys = ["a", "b", "c"], ["c", "b", "e"]
     # only structurally mergeable pairs: map + map, seq + seq, seq + scalar
     pools = {
-        "map": ([mk("map", lkeys, s) for s in docs3] + [mk("map", lkeys, s) for s in docs2],
-                [mk("map", rkeys, s) for s in docs3] + [mk("map", rkeys, s) for s in docs2]),
-        "seq": ([mk("seq", lkeys, s) for s in docs3] + [mk("seq", lkeys, s) for s in docs2],
+        "map": ([mk("map", lkeys, s) for s in docs3] + [mk("map", lkeys, s) for s in docs2]
+                + [mk("mapnest", lkeys, s) for s in docs3],
+                [mk("map", rkeys, s) for s in docs3] + [mk("map", rkeys, s) for s in docs2]
+                + [mk("mapnest", rkeys, s) for s in docs3]),
+        "seq": ([mk("seq", lkeys, s) for s in docs3] + [mk("seq", lkeys, s) for s in docs2]
+                + [mk("seqnest", lkeys, s) for s in docs3],
                 [mk("seq", rkeys, s) for s in docs3] + [mk("seq", rkeys, s) for s in docs2]
+                + [mk("seqnest", rkeys, s) for s in docs3]
                 + [mk("scalar", rkeys, s) for s in docs1] * 20),
     }
     chk.extra_cov["document_pool"] = {k: [len(v[0]), len(v[1])] for k, v in pools.items()}
@@ -409,6 +452,11 @@ def gen_cases(chk):
         chk.extra_cov["exhaustive_bound"] = "all pairs of 2-slot mapping documents, and all 2-slot sequences x scalar-root right documents, x 4 policies"
     else:
         n = 36000
+    # one Merger merging two right-hand documents in turn at a non-root path
+    pl_map, pr_map = pools["map"]
+    for _ in range(n // 6):
+        cases.append({"l": "sub: {k0: 0}\n" + rng.choice(pl_map), "r0": rng.choice(pr_map), "r": rng.choice(pr_map),
+                      "mode": rng.choice(MODES), "mergeat": "sub", "arrays": rng.choice(["all", "unique"])})
     for _ in range(n):
         pl, pr = pools[rng.choice(["map", "map", "seq"])]
         cases.append({"l": rng.choice(pl), "r": rng.choice(pr), "mode": rng.choice(MODES),
